@@ -197,6 +197,29 @@ func TestVerif_C09_Files(t *testing.T) {
 	})
 }
 
+// Every body size from 0 to 1100 bytes for each of the three defined tag types, two tags of that size in a row followed by
+// a tag of another size (so that a wrong PreviousTagSize or a coalesced write shows in what follows): sizes are otherwise
+// drawn from pools and ranges, and a threshold at, say, 1010 bytes would fall between them.
+func TestVerif_C09_SizeSweep(t *testing.T) {
+	m := mon.New("C09", "sizesweep")
+	defer m.Finish(t)
+	m.Rule("sizesweep: for every body size 0..1100 and every tag type {8, 9, 18}: a file [tag(size), tag(size), tag(size+7 mod 1101), tag(3)] through the oracle of part " +
+		"files (byte identity with the independent writer, independent parse, library demux of both files); thorough: sizes up to 9000; distinct = as part files")
+	max := m.N(1100, 9000)
+	m.Require("evaluations", int64(3*(max+1)))
+	vc := detviol.New(m)
+	defer vc.Flush()
+	mon.Parallel(3*(max+1), func(w, i int) {
+		r := m.Rand("sizesweep", i)
+		size, typ := i/3, []byte{refflv.TagAudio, refflv.TagVideo, refflv.TagScript}[i%3]
+		f := &refflv.File{HasVideo: i%2 == 0, HasAudio: i%4 < 2}
+		for k, n := range []int{size, size, (size + 7) % (max + 1), 3} {
+			f.Tags = append(f.Tags, refflv.Tag{Type: typ, Timestamp: uint32(40 * k), Body: r.Shaped(n)})
+		}
+		checkFile(m, vc, r, f, 2000000+i, false)
+	})
+}
+
 // Long files: a recording of hours has tens of thousands of tags; muxer and demuxer state after 2^16 tags, timestamps
 // running through 2^24 and up to 2^32-1.
 func TestVerif_C09_LongFile(t *testing.T) {
